@@ -416,6 +416,33 @@ def rule_versions(rep, sh):
 # ================================================================================================
 # C11-R2: subsumption sequence
 
+def rule_loop_body_phases(rep, sh):
+    """the body of the fixpoint loop evaluates the recursive rules of EVERY relation of the stratum before the subsumption bookkeeping
+    of ANY relation: the bookkeeping of R clears and refills @delta_R, which the rules of the other relations still have to read"""
+    f, paths = sh.paths('UnitTranslator', 'generateStratumLoopBody')
+    if f is None:
+        return
+    for p in paths:
+        top = p.ret
+        if top is None:
+            continue
+        byloop = {}
+        for x in subtrees(top):
+            if x[0] == 'foreach':
+                calls = {y[1] for y in subtrees(x) if y[0] == 'call'}
+                rec, sub = 'translateRecursiveClauses' in calls, 'translateSubsumptiveRecursiveClauses' in calls
+                if rec or sub:
+                    a, b = byloop.get(x[1], (False, False))
+                    byloop[x[1]] = (a or rec, b or sub)
+        phases = [byloop[k] for k in sorted(byloop, key=lambda k: int(k.rsplit('#', 1)[-1]))]
+        ok = phases == [(True, False), (False, True)]
+        rep.ob('R2-rules-of-all-relations-before-any-subsumption', 'generateStratumLoopBody', ok, f.where,
+               '' if ok else 'loop body phases (recursive rules, subsumption) per loop over the stratum: %s; required: one loop with the rules of all relations, '
+               'then one loop with the subsumption bookkeeping' % phases)
+        return
+    rep.analysis_broken('generateStratumLoopBody: no evaluable path')
+
+
 def rule_subsumption_sequence(rep, sh):
     f, paths = sh.paths('UnitTranslator', 'translateSubsumptiveRecursiveClauses')
     if f is None:
